@@ -1,0 +1,177 @@
+//! Verification-only synchronisation shim, compiled only under `--cfg prometheus_verif`.
+//!
+//! Wrappers around the std atomics, `std::sync::Mutex` and `parking_lot::RwLock` used by
+//! `atomic64.rs`, `histogram.rs` and `vec.rs`.  Each wrapper contains the original primitive.
+//! When the current thread has installed a [`Hook`], every operation first asks the hook for
+//! permission (the hook may block: that is how an external scheduler runs the library one
+//! atomic step at a time) and afterwards reports what the operation did.  Without a hook the
+//! wrappers are transparent.
+#![allow(missing_docs, missing_debug_implementations, dead_code)]
+use std::cell::RefCell;
+use std::fmt;
+use std::sync::atomic::{AtomicU64 as A64, AtomicI64 as AI64, AtomicU64 as IdGen};
+pub use std::sync::atomic::Ordering;
+use std::sync::Arc;
+
+static NEXT_ID: IdGen = IdGen::new(0);
+fn fresh_id() -> u64 { NEXT_ID.fetch_add(1, Ordering::SeqCst) }
+pub fn reset_ids() { NEXT_ID.store(0, Ordering::SeqCst) }
+
+#[derive(Debug, Clone)]
+pub enum Point {
+    Atomic { cell: u64, kind: &'static str, ord: Ordering, ord2: Option<Ordering>, weak: bool },
+    LockTry { cell: u64, kind: &'static str },
+    LockRelease { cell: u64, kind: &'static str },
+}
+#[derive(Debug, Clone)]
+pub enum Outcome { Atomic { before: u64, after: u64, ok: bool }, Acquired, Blocked, Released }
+
+pub trait Hook: Send + Sync {
+    /// Blocks until the scheduler grants this step; returns true to force a spurious weak-CAS failure.
+    fn before(&self, p: &Point) -> bool;
+    fn after(&self, p: &Point, o: Outcome);
+}
+thread_local! { static HOOK: RefCell<Option<Arc<dyn Hook>>> = RefCell::new(None); }
+pub fn install(h: Arc<dyn Hook>) { HOOK.with(|c| *c.borrow_mut() = Some(h)); }
+pub fn uninstall() { HOOK.with(|c| *c.borrow_mut() = None); }
+fn hook() -> Option<Arc<dyn Hook>> { HOOK.with(|c| c.borrow().clone()) }
+
+pub struct AtomicU64 { inner: A64, id: u64 }
+impl fmt::Debug for AtomicU64 { fn fmt(&self, f: &mut fmt::Formatter<'_>) -> fmt::Result { self.inner.fmt(f) } }
+macro_rules! rmw {
+    ($self:ident, $kind:expr, $ord:expr, $op:expr) => {{
+        match hook() {
+            None => $op,
+            Some(h) => {
+                let p = Point::Atomic { cell: $self.id, kind: $kind, ord: $ord, ord2: None, weak: false };
+                h.before(&p);
+                let before = $op;
+                let after = $self.inner.load(Ordering::SeqCst);
+                h.after(&p, Outcome::Atomic { before: before as u64, after: after as u64, ok: true });
+                before
+            }
+        }
+    }};
+}
+impl AtomicU64 {
+    pub fn new(v: u64) -> Self { AtomicU64 { inner: A64::new(v), id: fresh_id() } }
+    pub fn load(&self, o: Ordering) -> u64 { rmw!(self, "load", o, self.inner.load(o)) }
+    pub fn store(&self, v: u64, o: Ordering) {
+        match hook() { None => self.inner.store(v, o), Some(h) => {
+            let p = Point::Atomic { cell: self.id, kind: "store", ord: o, ord2: None, weak: false };
+            h.before(&p); let before = self.inner.load(Ordering::SeqCst); self.inner.store(v, o);
+            h.after(&p, Outcome::Atomic { before, after: v, ok: true }); } }
+    }
+    pub fn fetch_add(&self, v: u64, o: Ordering) -> u64 { rmw!(self, "fetch_add", o, self.inner.fetch_add(v, o)) }
+    pub fn fetch_sub(&self, v: u64, o: Ordering) -> u64 { rmw!(self, "fetch_sub", o, self.inner.fetch_sub(v, o)) }
+    pub fn swap(&self, v: u64, o: Ordering) -> u64 { rmw!(self, "swap", o, self.inner.swap(v, o)) }
+    pub fn compare_exchange_weak(&self, cur: u64, new: u64, s: Ordering, f: Ordering) -> Result<u64, u64> {
+        match hook() { None => self.inner.compare_exchange_weak(cur, new, s, f), Some(h) => {
+            let p = Point::Atomic { cell: self.id, kind: "cas_weak", ord: s, ord2: Some(f), weak: true };
+            let spurious = h.before(&p);
+            let r = if spurious { Err(self.inner.load(Ordering::SeqCst)) } else { self.inner.compare_exchange(cur, new, s, f) };
+            let after = self.inner.load(Ordering::SeqCst);
+            let before = match r { Ok(b) | Err(b) => b };
+            h.after(&p, Outcome::Atomic { before, after, ok: r.is_ok() });
+            r } }
+    }
+}
+pub struct AtomicI64 { inner: AI64, id: u64 }
+impl fmt::Debug for AtomicI64 { fn fmt(&self, f: &mut fmt::Formatter<'_>) -> fmt::Result { self.inner.fmt(f) } }
+impl AtomicI64 {
+    pub fn new(v: i64) -> Self { AtomicI64 { inner: AI64::new(v), id: fresh_id() } }
+    pub fn load(&self, o: Ordering) -> i64 { rmw!(self, "load", o, self.inner.load(o)) }
+    pub fn store(&self, v: i64, o: Ordering) {
+        match hook() { None => self.inner.store(v, o), Some(h) => {
+            let p = Point::Atomic { cell: self.id, kind: "store", ord: o, ord2: None, weak: false };
+            h.before(&p); let before = self.inner.load(Ordering::SeqCst); self.inner.store(v, o);
+            h.after(&p, Outcome::Atomic { before: before as u64, after: v as u64, ok: true }); } }
+    }
+    pub fn fetch_add(&self, v: i64, o: Ordering) -> i64 { rmw!(self, "fetch_add", o, self.inner.fetch_add(v, o)) }
+    pub fn fetch_sub(&self, v: i64, o: Ordering) -> i64 { rmw!(self, "fetch_sub", o, self.inner.fetch_sub(v, o)) }
+}
+
+// ---- Mutex (std API subset) ----
+pub struct Mutex<T> { inner: std::sync::Mutex<T>, id: u64 }
+pub struct MutexGuard<'a, T> { g: Option<std::sync::MutexGuard<'a, T>>, id: u64 }
+#[derive(Debug)] pub struct Poisoned;
+impl<T> Mutex<T> {
+    pub fn new(v: T) -> Self { Mutex { inner: std::sync::Mutex::new(v), id: fresh_id() } }
+    pub fn lock(&self) -> Result<MutexGuard<'_, T>, Poisoned> {
+        match hook() {
+            None => self.inner.lock().map(|g| MutexGuard { g: Some(g), id: self.id }).map_err(|_| Poisoned),
+            Some(h) => loop {
+                let p = Point::LockTry { cell: self.id, kind: "mutex" };
+                h.before(&p);
+                match self.inner.try_lock() {
+                    Ok(g) => { h.after(&p, Outcome::Acquired); return Ok(MutexGuard { g: Some(g), id: self.id }); }
+                    Err(std::sync::TryLockError::WouldBlock) => { h.after(&p, Outcome::Blocked); }
+                    Err(std::sync::TryLockError::Poisoned(_)) => return Err(Poisoned),
+                }
+            },
+        }
+    }
+}
+impl<T: fmt::Debug> fmt::Debug for Mutex<T> { fn fmt(&self, f: &mut fmt::Formatter<'_>) -> fmt::Result { self.inner.fmt(f) } }
+impl<T> std::ops::Deref for MutexGuard<'_, T> { type Target = T; fn deref(&self) -> &T { self.g.as_ref().unwrap() } }
+impl<T> std::ops::DerefMut for MutexGuard<'_, T> { fn deref_mut(&mut self) -> &mut T { self.g.as_mut().unwrap() } }
+impl<T> Drop for MutexGuard<'_, T> {
+    fn drop(&mut self) {
+        match hook() { None => { self.g.take(); } Some(h) => {
+            let p = Point::LockRelease { cell: self.id, kind: "mutex" };
+            h.before(&p); self.g.take(); h.after(&p, Outcome::Released); } }
+    }
+}
+
+// ---- RwLock (parking_lot API subset) ----
+pub struct RwLock<T> { inner: parking_lot::RwLock<T>, id: u64 }
+pub struct ReadGuard<'a, T> { g: Option<parking_lot::RwLockReadGuard<'a, T>>, id: u64 }
+pub struct WriteGuard<'a, T> { g: Option<parking_lot::RwLockWriteGuard<'a, T>>, id: u64 }
+impl<T: Default> Default for RwLock<T> { fn default() -> Self { RwLock::new(T::default()) } }
+impl<T: fmt::Debug> fmt::Debug for RwLock<T> { fn fmt(&self, f: &mut fmt::Formatter<'_>) -> fmt::Result { self.inner.fmt(f) } }
+impl<T> RwLock<T> {
+    pub fn new(v: T) -> Self { RwLock { inner: parking_lot::RwLock::new(v), id: fresh_id() } }
+    pub fn read(&self) -> ReadGuard<'_, T> {
+        match hook() {
+            None => ReadGuard { g: Some(self.inner.read()), id: self.id },
+            Some(h) => loop {
+                let p = Point::LockTry { cell: self.id, kind: "read" };
+                h.before(&p);
+                match self.inner.try_read() {
+                    Some(g) => { h.after(&p, Outcome::Acquired); return ReadGuard { g: Some(g), id: self.id }; }
+                    None => { h.after(&p, Outcome::Blocked); }
+                }
+            },
+        }
+    }
+    pub fn write(&self) -> WriteGuard<'_, T> {
+        match hook() {
+            None => WriteGuard { g: Some(self.inner.write()), id: self.id },
+            Some(h) => loop {
+                let p = Point::LockTry { cell: self.id, kind: "write" };
+                h.before(&p);
+                match self.inner.try_write() {
+                    Some(g) => { h.after(&p, Outcome::Acquired); return WriteGuard { g: Some(g), id: self.id }; }
+                    None => { h.after(&p, Outcome::Blocked); }
+                }
+            },
+        }
+    }
+}
+impl<T> std::ops::Deref for ReadGuard<'_, T> { type Target = T; fn deref(&self) -> &T { self.g.as_ref().unwrap() } }
+impl<T> std::ops::Deref for WriteGuard<'_, T> { type Target = T; fn deref(&self) -> &T { self.g.as_ref().unwrap() } }
+impl<T> std::ops::DerefMut for WriteGuard<'_, T> { fn deref_mut(&mut self) -> &mut T { self.g.as_mut().unwrap() } }
+impl<T> Drop for ReadGuard<'_, T> {
+    fn drop(&mut self) {
+        match hook() { None => { self.g.take(); } Some(h) => {
+            let p = Point::LockRelease { cell: self.id, kind: "read" };
+            h.before(&p); self.g.take(); h.after(&p, Outcome::Released); } }
+    }
+}
+impl<T> Drop for WriteGuard<'_, T> {
+    fn drop(&mut self) {
+        match hook() { None => { self.g.take(); } Some(h) => {
+            let p = Point::LockRelease { cell: self.id, kind: "write" };
+            h.before(&p); self.g.take(); h.after(&p, Outcome::Released); } }
+    }
+}
